@@ -471,6 +471,7 @@ func init() {
 	// ---------- time ----------
 	regV("time.Now", func(m *Machine, g *Goroutine, a []Value) Value { return TimeVal{m.clock} })
 	regV("time.Since", func(m *Machine, g *Goroutine, a []Value) Value { return tSat64(tSub(m.clock, timeOf(a[0]))) })
+	regV("time.Until", func(m *Machine, g *Goroutine, a []Value) Value { return tSat64(tSub(timeOf(a[0]), m.clock)) })
 	regV("(time.Time).Sub", func(m *Machine, g *Goroutine, a []Value) Value { return tSat64(tSub(timeOf(a[0]), timeOf(a[1]))) })
 	regV("(time.Time).Add", func(m *Machine, g *Goroutine, a []Value) Value { return TimeVal{tAdd(timeOf(a[0]), a[1].(*Term))} })
 	regV("(time.Time).After", func(m *Machine, g *Goroutine, a []Value) Value { return tGt(timeOf(a[0]), timeOf(a[1])) })
